@@ -16,7 +16,7 @@ from __future__ import annotations
 
 import random
 
-from hsverif.c14_harness import build_sim, gen_client_ops, gen_keys, gen_lsm_cfg, gen_think
+from hsverif.c14_harness import build_sim, gen_burst_clients, gen_client_ops, gen_keys, gen_lsm_cfg, gen_think
 from hsverif.c14_oracle import before
 from hsverif.core import Family, Result, ddmin
 from hsverif.probe import EngineProbe
@@ -27,7 +27,9 @@ EXHAUSTIVE = False
 RULE = (
     "Generated workloads: 1-4 concurrent writer processes, 6-40 put/delete operations (plus a few gets) over 2-6 "
     "keys with unique values, LSMTree with memtable 1-4 entries, 2-4 levels, size-tiered / leveled / FIFO thresholds "
-    "1-3, WriteAheadLog with sync policy every-write / batch(2-4) / periodic, think times 0..4x the flush latency. "
+    "1-3, WriteAheadLog with sync policy every-write / batch(2-4) / periodic, think times 0..4x the flush latency; "
+    "half of the workloads add 1-3 bursts of 2-5 one-shot clients (put / delete / get) starting within 0-12 us of one "
+    "instant, often the same nanosecond, so that writes of different clients overlap inside the 10 us memtable latency. "
     "Each workload is run to the end to count E delivered events; thorough tier crashes at every k in 0..E, quick "
     "tier at <=40 sampled k (always including 0 and E). The runner's 'evaluations' counts workloads; the (workload, k) "
     "pairs are in observed.crash_points_checked. Non-trivial crash point: a write operation was still open at the "
@@ -64,6 +66,8 @@ def gen_workload(policy: str):
         for _ in range(n_clients):
             n = max(1, total // n_clients)
             clients.append({"start": gen_think(rng, 2 * scale), "ops": gen_client_ops(rng, keys, n, scale, MIX, scans=False)})
+        if rng.random() < 0.5:
+            clients += gen_burst_clients(rng, keys, scale, MIX, scans=False)
         ks = "all" if tier == "thorough" else {"sample": 40, "seed": rng.randrange(1 << 30)}
         return {"store": cfg, "keys": keys, "clients": clients, "ks": ks}
 
